@@ -19,6 +19,7 @@ def parseAct (t : String) : Option (Option UAct) :=
   match t.toList with
   | ['p'] => some (some .panic)
   | ['p', 'e'] => some (some .panic)     -- a panic whose value is an error
+  | ['p', 'n'] => some (some .panic)     -- panic(nil): recovered as a non-nil value since go 1.21 (`Tie.tie_goDirective`)
   | ['a'] => some (some .readAll)
   | ['o'] => some (some .readOne)
   | ['s'] => some none
@@ -152,7 +153,11 @@ def parseRun (op : List String) : Option Run :=
   | "run" :: kvs => do
     let api ← kv? kvs "api"
     if ¬ ["mr", "void", "each", "chan", "finish", "finishvoid"].contains api then none
-    let n ← (← kv? kvs "n").toNat?
+    let n0 ← (← kv? kvs "n").toNat?
+    -- gq=k: the generator ends by runtime.Goexit() before item k: for the model it returns after k items (`Spec6.withGenExit`)
+    let gq ← (match kv? kvs "gq" with | none => some none | some t => t.toNat?.map some)
+    if (gq.getD 0) > n0 then none
+    let n := gq.getD n0
     let ws ← parseWorkers (← kv? kvs "w")
     let lib := api = "finish" || api = "finishvoid"      -- the library itself passes WithWorkers(len(fns))
     let ctx ← kv? kvs "ctx"
@@ -160,8 +165,9 @@ def parseRun (op : List String) : Option Run :=
     let gp ← parseOptNat (← kv? kvs "gp")
     let gx ← parseOptNat (← kv? kvs "gx")
     let m ← kv? kvs "m"
-    let parts := if n = 0 then [] else m.splitOn "/"
-    if parts.length ≠ n then none
+    let parts0 := if n0 = 0 then [] else m.splitOn "/"
+    if parts0.length ≠ n0 then none
+    let parts := parts0.take n
     let ms ← parts.mapM parseScript
     let r0 ← parseScript (← kv? kvs "r")
     if lib ∧ (¬ r0.isEmpty ∨ ctx ≠ "none" ∨ gp.isSome) then none
@@ -318,8 +324,11 @@ def runLine (r : Report) (sec : Nat) (l : Line) : Report := Id.run do
   let toksOf (key : String) : List String := ((kv? l.op key).getD "-").splitOn "/" |>.flatMap (·.splitOn ".")
   for (who, key) in [("mapper", "m"), ("reducer", "r")] do
     if (toksOf key).contains "q" then r := r.addCover s!"goexit-{who}-{run.api}"
+    if (toksOf key).contains "pn" then r := r.addCover s!"panic-nil-{who}-{run.api}"
     if (toksOf key).contains "pe" then r := r.addCover s!"panic-error-value-{who}-{run.api}"
     if (toksOf key).contains "p" then r := r.addCover s!"panic-string-value-{who}-{run.api}"
+  if (kv? l.op "gq").isSome then r := r.addCover s!"goexit-generator-{run.api}"
+  if (kv? l.op "gk") = some "n" then r := r.addCover s!"panic-nil-generator-{run.api}"
   if nestedBad ≠ 0 then
     r := r.violation sec l.idx s!"{nestedBad} nested call(s) from inside a user function misbehaved (two functions of one Finish could not run at the same time / FinishVoid did not run both / a default MapReduce did not return its sum) op=[{joinSp l.op}]"
   for wt in run.waits.eraseDups do r := r.addCover s!"wait-{wt}"
